@@ -241,7 +241,7 @@ Section Spec.
     | Loop u c b => recw u c b stk 0 (loop_enter s)
     | For _ n b => sfor n b stk 0 (loop_enter s)
     | Case arms => scase arms false (Some 0) stk s
-    | FunDef f body => SNorm (b_set_last 0 (b_upd (define f body) s))
+    | FunDef f body => errexit_check stk (b_set_last 0 (b_upd (define f body) s))
     end.
 
   (** one iteration of execute_while_or_until *)
